@@ -141,6 +141,9 @@ def periods(W, p):
     # datetime.timedelta cannot hold a symbolic value: concrete family
     for sec in (0, 1, 59, 60, 3599, 3600, 86399, 86400, 90061):
         W.prove(W.eq(_secs(W, tk.normalize_period(datetime.timedelta(seconds=sec))), sec), "period-spellings", dict(timedelta=sec))
+    # ISO strings with leading zeros / several fields (concrete family; the symbolic shapes are in the iso scenarios)
+    for text, sec in (("PT09M", 540), ("PT007H05S", 7 * 3600 + 5), ("PT0H0M1S", 1), ("PT1H30S", 3630), ("PT100M", 6000), ("PT25H61M61S", 25 * 3600 + 61 * 60 + 61), ("PT0S", 0), ("PT00S", 0)):
+        W.prove(W.eq(_secs(W, tk.normalize_period(text)), sec), "period-spellings", dict(text=text))
     # [v, unit] with a bad unit or non-int value is rejected
     for bad in ([v, "x"], [v, "seconds"], ["3", "s"], [v], [v, "s", "s"]):
         try:
